@@ -52,6 +52,18 @@ Theorem C18_live_tail_exact :
 Proof. exact live_tail_exact. Qed.
 Print Assumptions C18_live_tail_exact.
 
+(* The subscription point is the return of the streaming call: for every
+   interleaving of flushes and iterations of the forwarding task after it
+   (flushes may all precede the task's first live iteration — it is still
+   handing over the historical result), the consumer gets exactly the specified
+   rows of every batch flushed since, each once, in flush order. *)
+Theorem C18_executor_exact :
+  forall (sel : option sexpr) (merge : Z) (evs : list xevent),
+  Forall (fun b => wf_batch b = true /\ ts_col_ok b = true /\ clause_ok sel b) (xflushes evs) ->
+  xdelivered (from_sql sel) merge evs = spec_tail sel merge (xflushes evs).
+Proof. exact executor_exact. Qed.
+Print Assumptions C18_executor_exact.
+
 (* Row form of the same: a batch is delivered iff some row is wanted (at or
    after the merge point and satisfying the clause); it has one row per wanted
    original row, in batch order, and its k-th row carries in every column the
